@@ -40,9 +40,12 @@ META = {
 def shards(tier):
     if tier == "quick":
         return [{"label": "cuts%d" % i, "kind": "cuts", "n": 80} for i in range(14)] + \
-               [{"label": "trace", "kind": "trace", "n": 3}]
+               [{"label": "trace", "kind": "trace", "n": 3},
+                # the same sweep with the interpreter's -O switch (assert statements are not executed)
+                {"label": "cuts-O", "kind": "cuts", "n": 60, "env": {"PYTHONOPTIMIZE": "1"}, "optimized": True}]
     return [{"label": "cuts%d" % i, "kind": "cuts", "n": 1100} for i in range(14)] + \
-           [{"label": "trace", "kind": "trace", "n": 25}, {"label": "kill", "kind": "kill", "n": 100, "timeout_s": 3000}]
+           [{"label": "trace", "kind": "trace", "n": 25}, {"label": "kill", "kind": "kill", "n": 100, "timeout_s": 3000},
+            {"label": "cuts-O", "kind": "cuts", "n": 600, "env": {"PYTHONOPTIMIZE": "1"}, "optimized": True}]
 
 
 def page_boundary_case(rng):
@@ -165,6 +168,13 @@ def run_shard(ctx):
 
     mod = _sys.modules[__name__]
     kind = ctx.shard["kind"]
+    if ctx.shard.get("optimized"):
+        import sys as _sys
+
+        if _sys.flags.optimize < 1:
+            ctx.inconclusive.append("the -O shard is not running with asserts stripped")
+            return
+        ctx.count("class:loader_run_with_python_-O")
     if kind == "cuts":
         for i in range(ctx.shard["n"]):
             safe_judge(ctx, mod, page_boundary_case(ctx.rng) if i % 10 == 9 else small_case(ctx.rng))
